@@ -1,6 +1,7 @@
 package platlat
 
 import (
+	"math"
 	"sort"
 	"strings"
 	"sync"
@@ -8,6 +9,7 @@ import (
 
 	"github.com/sarchlab/akita/v4/sim"
 	"github.com/sarchlab/akita/v4/tracing"
+	"github.com/sarchlab/mgpusim/v4/amd/timing/cu"
 )
 
 // cmdRecorder is a hook on the driver (the driver announces every command as a
@@ -84,6 +86,9 @@ type counterTracer struct {
 	open  map[string]openTask
 	count map[string]float64
 	busy  map[string]float64
+	// cpi: the repository's own CPI-stack tracer of a compute unit (what the runner attaches with -report-cpi-stack /
+	// -report-all); its rows are reported next to the counts
+	cpi *cu.CPIStackTracer
 }
 
 type openTask struct {
@@ -131,6 +136,12 @@ func attachCounters(p *Platform) []*counterTracer {
 		if !ok {
 			continue
 		}
+		if unit, ok := c.(*cu.ComputeUnit); ok {
+			tr := cu.NewCPIStackInstHook(unit, p.Sim.GetEngine())
+			tracing.CollectTrace(h, tr)
+			out = append(out, &counterTracer{comp: c.Name(), cpi: tr})
+			continue
+		}
 		for _, s := range counted {
 			if strings.Contains(c.Name(), s) {
 				t := &counterTracer{eng: p.Sim.GetEngine(), comp: c.Name(), open: map[string]openTask{},
@@ -147,6 +158,17 @@ func attachCounters(p *Platform) []*counterTracer {
 func counterResult(ts []*counterTracer) []Counter {
 	var out []Counter
 	for _, t := range ts {
+		if t.cpi != nil {
+			for kind, stack := range map[string]map[string]float64{"CPIStack": t.cpi.GetCPIStack(), "SIMDCPIStack": t.cpi.GetSIMDCPIStack()} {
+				for k, v := range stack {
+					if math.IsNaN(v) || math.IsInf(v, 0) {
+						continue // a compute unit that executed no instruction: x/0
+					}
+					out = append(out, Counter{Name: t.comp + "/" + kind + "." + k, Value: v})
+				}
+			}
+			continue
+		}
 		t.mu.Lock()
 		for k, v := range t.count {
 			out = append(out, Counter{Name: t.comp + "/" + k, Value: v})
